@@ -48,7 +48,7 @@ SRC_FILES = ["src/rime/dict/dict_compiler.cc", "src/rime/algo/algebra.cc", "src/
              "src/rime/dict/mapped_file.h"]
 NONDELETING = ("derive", "fuzz", "abbrev")
 DELETING = ("xlit", "xform", "erase")
-GENERATOR_VERSION = 4
+GENERATOR_VERSION = 5
 
 
 def hx(b):
@@ -215,6 +215,13 @@ def gen_case(rng, cid):
         ops.append("apply")
         if not high and rng.random() < 0.3:
             ops.append("compile")      # the real DictCompiler on generated dict/schema files
+            if rng.random() < 0.5:
+                # the schema is edited (or not) and the same dictionary compiled again over the existing build, nothing forced:
+                # the prism must follow the algebra as it is now
+                ops.append("queries %d 3 6" % rng.randrange(1 << 30))
+                for _ in range(rng.choice([0, 1, 1, 2])):
+                    ops.append("rule " + hx(gen_formula(rng, letters, sorted(set(syls)), outside, True)))
+                ops += ["apply", "compile again"]
         else:
             if rng.random() < 0.5:
                 ops.append("glue")
@@ -345,6 +352,117 @@ def gen_prefix_chain(rng, cid):
         ops += ["q " + hx(q)]
     ops += ["x " + hx(w[:1]) + " 0", "x " + hx(w[:8]) + " 3"]
     return ops
+
+
+U8_POOL = ["ā", "á", "ǎ", "à", "ē", "é", "ě", "è", "ī", "í", "ō", "ó", "ū", "ü", "ǖ", "ǘ", "ń", "ň", "ê", "ḿ", "ẑ", "ㄅ", "ㄆ", "ㄚ", "ˊ", "ˇ", "𠀀", "𝒂"]
+
+
+def gen_xlit_utf8(rng, cid):
+    """directed family: syllables spelled with multi-byte characters (tone-marked vowels, bopomofo, one four-byte character) and
+    `xlit` rules between them and ASCII — both directions, a character mapped to itself, characters of different encoded lengths —
+    as the stock tone-mark schemas have them, mixed with regex rules whose patterns are whole characters (so every spelling stays
+    well-formed UTF-8 for the next xlit)."""
+    asc = rng.sample("abcdeghimnouvz", rng.randint(2, 4))
+    multi = rng.sample(U8_POOL, rng.randint(2, 6))
+    alpha = asc + multi
+    syls = sorted({"".join(rng.choice(alpha) for _ in range(rng.randint(1, 4))) for _ in range(rng.choice([2, 4, 7, 12]))})
+    rules = []
+    for _ in range(rng.choice([1, 2, 2, 3, 4])):
+        k = rng.random()
+        if k < 0.6:
+            pop = alpha if rng.random() < 0.7 else multi
+            src = rng.sample(pop, rng.randint(1, min(5, len(pop))))
+            shape = rng.random()
+            if shape < 0.45:
+                dst = [rng.choice(asc) for _ in src]                          # tone marks -> plain letters
+            elif shape < 0.7:
+                dst = [rng.choice(U8_POOL) for _ in src]                      # to other multi-byte characters (other lengths)
+            elif shape < 0.85:
+                dst = [x if rng.random() < 0.5 else rng.choice(alpha) for x in src]   # some characters mapped to themselves
+            else:
+                dst = [rng.choice(alpha + ["q"]) for _ in src]
+            rules.append("xlit/%s/%s/" % ("".join(src), "".join(dst)))
+        else:
+            kind = rng.choice(["derive", "xform", "fuzz", "abbrev", "erase"])
+            a = rng.choice(alpha)
+            pat = rng.choice([a, a + "$", "^" + a, "(%s|%s)" % (a, rng.choice(alpha)), a + rng.choice(alpha)])
+            if kind == "erase":
+                pat = rng.choice([pat, "^" + "".join(rng.choice(syls)) + "$", ".*" + a, a + ".*"])
+                rules.append("erase/%s/" % pat)
+            else:
+                rules.append("%s/%s/%s/" % (kind, pat, rng.choice(alpha + ["", "q", a + a])))
+    ops = ["case %d" % cid, "syl " + " ".join(hx(x.encode("utf-8")) for x in syls)]
+    ops += ["rule " + hx(f.encode("utf-8")) for f in rules]
+    ops.append("apply")
+    if rng.random() < 0.5:
+        ops.append("glue")
+    ops.append("build")
+    ops.append("queries %d 5 20" % rng.randrange(1 << 30))
+    return ops
+
+
+XLIT_BUF = 256
+
+
+def gen_xlit_long(rng, cid):
+    """directed family: spellings around the size of Transliteration::Apply's 256-byte output buffer (it gives up — rule not
+    applied — once more than 249 bytes are written and a character is still to come): lengths 244..256, the mapped character first,
+    last or in the middle, one-byte characters mapped to three-byte ones (the output outgrows the input), and a later rule that needs
+    the xlit result."""
+    fill = rng.choice(["a", "b", "ab"])
+    hit = "x"
+    wide = rng.choice(["ㄅ", "ā", "y", "𠀀"])
+    syls = set()
+    for _ in range(rng.randint(2, 5)):
+        n = rng.choice([244, 246, 247, 248, 249, 250, 251, 252, 253, 256, 120, 83, 84, 85, 125, 126])
+        pos = rng.choice(["first", "last", "mid", "many"])
+        body = [rng.choice(fill) for _ in range(n)]
+        if pos == "first":
+            body[0] = hit
+        elif pos == "last":
+            body[-1] = hit
+        elif pos == "mid":
+            body[rng.randrange(n)] = hit
+        else:
+            for i in rng.sample(range(n), min(n, rng.choice([2, 60, 84, 125]))):
+                body[i] = hit
+        syls.add("".join(body))
+    syls.add(rng.choice(["x", "ax", "b"]))
+    rules = ["xlit/%s/%s/" % (hit, rng.choice([wide, "y", hit]))]
+    if rng.random() < 0.5:
+        rules.append(rng.choice(["derive/^(.).*$/$1/", "abbrev/^(..).*$/$1/", "xlit/ab/ba/", "erase/^a.*$/"]))
+    ops = ["case %d" % cid, "syl " + " ".join(hx(x.encode("utf-8")) for x in sorted(syls))]
+    ops += ["rule " + hx(f.encode("utf-8")) for f in rules]
+    ops += ["apply", "build"]
+    # (no `queries`: it asks for every prefix of every key; a handful of direct questions instead)
+    for k in sorted(syls)[:3]:
+        ops += ["q " + hx(k.encode("utf-8")), "x " + hx(k.encode("utf-8")[:2]) + " 3"]
+    ops += ["x - 0", "sp 0", "sp 1"]
+    return ops
+
+
+def xlit_reference(args, spelling):
+    """Transliteration::Apply on well-formed UTF-8 -> (applied, result) | None when outside (ill-formed text, unequal lists)"""
+    try:
+        left, right, sp = args[1].decode("utf-8"), args[2].decode("utf-8"), spelling.decode("utf-8")
+    except (UnicodeDecodeError, IndexError):
+        return None
+    if len(left) != len(right) or "\0" in left + right + sp:
+        return None
+    cmap = {}
+    for a, b in zip(left, right):
+        cmap[a] = b
+    out, modified = [], False
+    n = 0
+    for ch in sp:
+        if n > XLIT_BUF - 7:
+            return (False, spelling)
+        if ch in cmap:
+            ch = cmap[ch]
+            modified = True
+        out.append(ch)
+        n += len(ch.encode("utf-8"))
+    return (modified, "".join(out).encode("utf-8") if modified else spelling)
 
 
 # ----------------------------------------------------------------------------- running both sides
@@ -550,9 +668,25 @@ def monitor(prim):
             if kind == "erase" and args and len(args) > 1 and safe_regex(args[1]):
                 stats["erase_modelled"] = stats.get("erase_modelled", 0) + 1
             # the recorded outcome of Calculation::Apply against the reference reading of "matches"
-            for k, o in rows.items():
+            for ki, (k, o) in enumerate(rows.items()):
                 if o not in ("0", "1"):
                     continue
+                if kind == "xlit" and args and len(args) >= 3:
+                    xr = xlit_reference(args, k)
+                    if xr is not None:
+                        stats["ref_outcomes"] = stats.get("ref_outcomes", 0) + 1
+                        stats["xlit_exact"] = stats.get("xlit_exact", 0) + 1
+                        if len(k) > 200:
+                            stats["xlit_long"] = stats.get("xlit_long", 0) + 1
+                        if any(x >= 0x80 for x in k + args[1] + args[2]):
+                            stats["xlit_multibyte"] = stats.get("xlit_multibyte", 0) + 1
+                        res = unhx(a[6 + 3 * ki]) if o == "1" else k
+                        if xr[0] != (o == "1") or xr[1] != res:
+                            stats["ref_disagree"] = stats.get("ref_disagree", 0) + 1
+                            if ref_bad is None:
+                                ref_bad = {"rule": unhx(a[1]).decode("latin-1"), "spelling": hx(k), "applied": o == "1", "reference_matches": xr[0],
+                                           "result": hx(res), "reference_result": hx(xr[1])}
+                        continue
                 rm = ref_matches(kind, args, k)
                 if rm is None:
                     continue
@@ -657,6 +791,8 @@ def monitor(prim):
             # (no prism file), which is what /repo does since d76c819.
             f = fields(obs)
             stats["compiles"] = stats.get("compiles", 0) + 1
+            if len(a) > 1 and a[1] == "again":
+                stats["compiles_again"] = stats.get("compiles_again", 0) + 1
             if f.get("ok") == "T":      # Table::Build failed (C06's subject), no prism to speak about
                 stats["table_build_failures"] = stats.get("table_build_failures", 0) + 1
                 keys = None
@@ -828,13 +964,17 @@ def run(c):
         cases.append(("penalty-chain", gen_penalty_chain(rng, ngen + len(cases))))
     for _ in range(8 if quick else 150):
         cases.append(("prefix-chain", gen_prefix_chain(rng, ngen + len(cases))))
+    for _ in range(40 if quick else 600):
+        cases.append(("xlit-utf8", gen_xlit_utf8(rng, ngen + len(cases))))
+    for _ in range(12 if quick else 200):
+        cases.append(("xlit-long", gen_xlit_long(rng, ngen + len(cases))))
     # K + O in batches
     o_fail, mismatches, san = {}, [], []
     foreign_crashes = 0
     nontrivial, seen_hash = set(), set()
     totals = {"rounds": 0, "applied_rounds": 0, "merged_entries": 0, "queries": 0, "compiles": 0, "compiles_refused_empty_table": 0, "table_build_failures": 0,
               "ref_outcomes": 0, "ref_disagree": 0, "erase_contains_not_whole": 0, "erase_modelled": 0,
-              "deep_only_spellings": 0, "cps_more_than_8": 0}
+              "deep_only_spellings": 0, "cps_more_than_8": 0, "xlit_exact": 0, "xlit_long": 0, "xlit_multibyte": 0, "compiles_again": 0}
     ref_bad = None
     samples = []
     B = 50 if quick else 200
@@ -955,6 +1095,9 @@ def run(c):
         "erase_rounds_computed_by_the_model_regex": totals["erase_modelled"],
         "spellings_reachable_only_with_3_or_more_penalties": totals["deep_only_spellings"],
         "common_prefix_queries_with_more_than_8_matches": totals["cps_more_than_8"],
+        "dict_compiler_runs_over_an_existing_build": totals["compiles_again"],
+        "xlit_outcomes_checked_exactly": totals["xlit_exact"], "xlit_outcomes_with_multibyte_characters": totals["xlit_multibyte"],
+        "xlit_outcomes_on_spellings_over_200_bytes": totals["xlit_long"],
         "correspondence_mismatches": len(mismatches), "impl_monitor_failures": len(o_fail), "sanitizer_aborts": len(san),
         "source_hash": vlib.source_hash(SRC_FILES), "proof_failures": audit["failures"],
     })
@@ -973,17 +1116,22 @@ def replay(c, r):
         return 1
     R = Runner(c)
     res = R.run(ops)
-    viol, _ = monitor(res["prim"])
+    viol, st = monitor(res["prim"])
     mm = compare(res)
     for l in readable(ops):
         print("  " + l[:200])
+    rb = st.get("ref_bad")
+    if rb:
+        print("replay: Calculation::Apply and the reference reading of the rule disagree: rule %r on spelling %r: applied=%s, reference says %s%s"
+              % (rb["rule"], unhx(rb["spelling"]), rb["applied"], rb["reference_matches"],
+                 " (result %r, reference %r)" % (unhx(rb["result"]), unhx(rb["reference_result"])) if "result" in rb else ""))
     for sig, det in viol:
         print("replay: property violated on the implementation: %s — %s" % (sig, det.get("clause")))
     if res["rc"] != 0:
         print("replay: harness exited with rc=%d\n%s" % (res["rc"], res["log"][-1500:]))
     if mm:
         print("replay: model and implementation disagree at `%s`\n  impl : %s\n  model: %s" % (mm["op"][:200], mm["impl"][:400], mm["model"][:400]))
-    if not viol and not mm and res["rc"] == 0:
+    if not viol and not mm and res["rc"] == 0 and not rb:
         print("replay: no violation, no disagreement (%d primitive operations)" % len(res["prim"]))
         return 0
     return 1
